@@ -34,6 +34,15 @@ def tasks(tier):
     return out
 
 
+
+def _det(d_):
+    """Driver seeds its rng with hash(name), which is salted per process: re-seed deterministically from VERIF_SEED and the
+    task name so that a failing case can be replayed by re-running the task."""
+    import random, zlib
+    from vf import common
+    d_.rng = random.Random(common.seed() * 7919 + zlib.crc32(d_.name.encode()))
+    return d_
+
 # ------------------------------------------------------------------------------------------ model + oracle
 class Problem:
     """k-parameter closed-form model, its data, an evaluation log and an independent likelihood."""
@@ -153,11 +162,11 @@ def _silence():
 
 # ------------------------------------------------------------------------------------------ drivers
 def drv_opt(tier, log_opt, nstarts):
-    d_ = Driver('C12', 'opt.log_%s' % ('on' if log_opt else 'off'), bound='Inference.opt (NLopt) log_opt=%s; closed-form 1-D model n=12 with k=1..4 parameters, '
+    d_ = _det(Driver('C12', 'opt.log_%s' % ('on' if log_opt else 'off'), bound='Inference.opt (NLopt) log_opt=%s; closed-form 1-D model n=12 with k=1..4 parameters, '
                 'every fixed subset (26), multinom on/off, %d log-uniform starts each in [0.015,13.3]^k (about 1 in 6 with a coordinate exactly on a '
                 'bound), bounds [0.01,20], upper bound None in 1/8 of the runs; algorithms BOBYQA (default; also COBYLA, NELDERMEAD, SBPLX in rotation), '
                 'maxeval 600; evaluation log: first=start (rel 1e-12), all inside bounds (rel 1e-12), fixed exact, ll(returned)=reported (1e-10 rel, '
-                'math.lgamma oracle), returned no worse than start' % (log_opt, nstarts))
+                'math.lgamma oracle), returned no worse than start' % (log_opt, nstarts)))
     import numpy as np
     import nlopt
     import dadi
@@ -209,12 +218,12 @@ def _call_scipy(I, which, prob, p0, lb, ub, fixed, multinom, ll_scale, maxiter):
 
 
 def drv_scipy(tier, which, nstarts, shim):
-    d_ = Driver('C12', which + ('.iprint-shim' if shim else ''), bound='Inference.%s%s; closed-form 1-D model n=12, k=1..4 parameters, every fixed subset (26), '
+    d_ = _det(Driver('C12', which + ('.iprint-shim' if shim else ''), bound='Inference.%s%s; closed-form 1-D model n=12, k=1..4 parameters, every fixed subset (26), '
                 'multinom on/off, %d starts each (log-uniform in [0.015,13.3]^k, about 1 in 6 with a coordinate exactly on a bound), bounds [0.01,20], '
                 'upper bound None for some parameters in 1/8 of the runs, ll_scale in {1,10}, maxiter in {default,40}; evaluation log: first=start, all '
                 'inside bounds (rel 1e-12), fixed exact, ll(returned)=-fopt*ll_scale (1e-10 rel, math.lgamma oracle), returned point was evaluated'
                 % (which, ' with scipy.optimize.fmin_l_bfgs_b wrapped to drop the iprint keyword that scipy>=1.18 rejects (to reach the wiring behind the TypeError)'
-                   if shim else '', nstarts))
+                   if shim else '', nstarts)))
     import numpy as np
     import scipy.optimize as so
     import dadi
@@ -280,10 +289,10 @@ def drv_scipy(tier, which, nstarts, shim):
 
 
 def drv_grid(tier, ngrids):
-    d_ = Driver('C12', 'optimize_grid', bound='Inference.optimize_grid; closed-form 1-D model n=12, k=1..4 with every fixed subset leaving 1-3 free parameters, '
+    d_ = _det(Driver('C12', 'optimize_grid', bound='Inference.optimize_grid; closed-form 1-D model n=12, k=1..4 with every fixed subset leaving 1-3 free parameters, '
                 '%d random grids per pattern (2-5 points per axis, complex-step and real-step slices inside [0.01,20]), multinom on/off, full_output on/off: every '
                 'evaluation is a grid point (rel 1e-12) with fixed values exact, every grid point evaluated once, returned point = grid argmax of the math.lgamma '
-                'oracle, -fopt = ll(returned), fout and thetas equal the oracle at every grid point (1e-10 rel)' % ngrids)
+                'oracle, -fopt = ll(returned), fout and thetas equal the oracle at every grid point (1e-10 rel)' % ngrids))
     import numpy as np
     import itertools, math
     import dadi
@@ -367,8 +376,8 @@ def drv_grid(tier, ngrids):
 
 
 def drv_project(tier, maxlen):
-    d_ = Driver('C12', 'project_params', bound='_project_params_down/_project_params_up: lengths 1..%d, EVERY fixed pattern (2^len), lists/tuples/arrays, random '
-                'values incl. 0, negatives and fixed value 0.0; fixed_params=None identity; scalar pin; length mismatch raises ValueError; exact equality' % maxlen)
+    d_ = _det(Driver('C12', 'project_params', bound='_project_params_down/_project_params_up: lengths 1..%d, EVERY fixed pattern (2^len), lists/tuples/arrays, random '
+                'values incl. 0, negatives and fixed value 0.0; fixed_params=None identity; scalar pin; length mismatch raises ValueError; exact equality' % maxlen))
     import numpy as np
     import itertools
     from dadi import Inference as I
@@ -413,9 +422,9 @@ def drv_project(tier, maxlen):
 
 
 def drv_perturb(tier, ncases):
-    d_ = Driver('C12', 'perturb_params', bound='Misc.perturb_params: %d cases, 1-5 parameters inside bounds with 0<=lb, 1.01*lb<=0.99*ub, fold in {0,0.5,1,2,3}, bounds '
+    d_ = _det(Driver('C12', 'perturb_params', bound='Misc.perturb_params: %d cases, 1-5 parameters inside bounds with 0<=lb, 1.01*lb<=0.99*ub, fold in {0,0.5,1,2,3}, bounds '
                 'lists with and without None entries, None bounds, params on a bound; result within [lb,ub], within a factor 2^fold of the input unless clamped '
-                'to 1.01*lb/0.99*ub, arguments (incl. None entries of the bounds lists) unchanged; numpy.random seeded from the driver rng' % ncases)
+                'to 1.01*lb/0.99*ub, arguments (incl. None entries of the bounds lists) unchanged; numpy.random seeded from the driver rng' % ncases))
     import numpy as np
     from dadi import Misc
     rng = d_.rng
